@@ -32,6 +32,10 @@ structure Cfg where
   validatesULen : Bool
   /-- `readNextBlock` compares `CompressedSize` with the remaining file size before `make` -/
   boundsCompressedSize : Bool
+  /-- a block whose payload is cut short (fewer bytes left than `CompressedSize`) ends the data
+      like a short header does (`io.EOF`), instead of failing the load (`io.ErrUnexpectedEOF`);
+      read from both sites: the size pre-check and the `io.ReadFull` error mapping -/
+  shortPayloadIsEOF : Bool
   /-- `ParseBlock` bounds the decoder's declared output length before decompressing -/
   boundsDecodedLen : Bool
   /-- `ParseBlock` requires the counted entries to consume the whole decoded payload (so the
@@ -47,7 +51,7 @@ structure Cfg where
 def goodCfg : Cfg :=
   { rejectsEmptyKey := true, rejectsLongKey := true, flushGe := true, flushAtCount := true,
     deleteRemoves := true, validatesCrc := true, validatesULen := true, boundsCompressedSize := true,
-    boundsDecodedLen := true, parseConsumesAll := true, v2Fallback := true, rejectsLongName := true }
+    boundsDecodedLen := true, parseConsumesAll := true, shortPayloadIsEOF := true, v2Fallback := true, rejectsLongName := true }
 
 /-- canonical error classes of the reader -/
 inductive Err where
